@@ -13,7 +13,7 @@ use crate::ser::Ser;
 use kanata_keyberon::key_code::KeyCode;
 use kanata_parser::cfg;
 use kanata_parser::custom_action::*;
-use kanata_parser::keys::OsCode;
+use kanata_parser::keys::{str_to_oscode, OsCode};
 use kanata_state_machine::oskbd::{KeyEvent, KeyValue};
 use kanata_state_machine::Kanata;
 
@@ -241,8 +241,25 @@ pub fn serialise_kanata(c: &cfg::Cfg, hist: &[KEv]) -> Result<String, String> {
         out.push(ents.len().to_string());
         out.extend(ents);
     }
-    if !format!("{:?}", c.overrides).contains("overrides_by_osc: {}") {
-        return Err("overrides".into());
+    // global overrides: the table is private to the parser; it is rebuilt here from the (generated)
+    // configuration text - key names through the parser's own name table - and the model builds
+    // its table from that with `Override.tryNew` / `Overrides.new` (validated against the real
+    // `override_keys` by C13). Anything this simple reader cannot read stays unsupported.
+    let has_overrides = !format!("{:?}", c.overrides).contains("overrides_by_osc: {}");
+    let ovr = if has_overrides {
+        match OVR_TEXT.with(|t| read_overrides(&t.borrow())) {
+            Some(v) => v,
+            None => return Err("overrides".into()),
+        }
+    } else {
+        vec![]
+    };
+    {
+        let mut t = format!("OVR {}", ovr.len());
+        for (i, o) in &ovr {
+            t.push_str(&format!(" I {} {} O {} {}", i.len(), i.iter().map(|x| x.to_string()).collect::<Vec<_>>().join(" "), o.len(), o.iter().map(|x| x.to_string()).collect::<Vec<_>>().join(" ")));
+        }
+        out.push(t.split_whitespace().collect::<Vec<_>>().join(" "));
     }
     out.push(format!(
         "OPT roa {} smd {} smkt {}",
@@ -267,6 +284,7 @@ pub fn serialise_kanata(c: &cfg::Cfg, hist: &[KEv]) -> Result<String, String> {
 
 pub fn expand(line: &str) -> String {
     let p = parse_kline(line);
+    OVR_TEXT.with(|t| *t.borrow_mut() = p.cfg_text.clone());
     match parse_cfg(&p.cfg_text) {
         Err(_) => format!("{}X {} REJECT {}", p.tag, p.dbg as u8, p.hist_str),
         Ok(c) => match serialise_kanata(&c, &p.hist) {
@@ -450,6 +468,7 @@ pub fn run_hist(r: &mut Runner, hist: &[KEv], loop_mode: bool, dbg: bool) {
 
 pub fn eval(line: &str) -> String {
     let p = parse_kline(line);
+    OVR_TEXT.with(|t| *t.borrow_mut() = p.cfg_text.clone());
     match parse_cfg(&p.cfg_text) {
         Err(_) => return "rej".into(),
         Ok(c) => {
@@ -518,3 +537,58 @@ pub fn run_hist_always_ticking(r: &mut Runner, hist: &[KEv]) {
 
 #[allow(dead_code)]
 pub fn unused(_: &Ser) {}
+
+
+thread_local! {
+    /// configuration text of the case being serialised (for `read_overrides`)
+    pub static OVR_TEXT: std::cell::RefCell<String> = std::cell::RefCell::new(String::new());
+}
+
+/// `(defoverrides (in...) (out...) ...)` items of a configuration text whose lists hold plain key
+/// names only; `None` if there is anything else in them
+pub fn read_overrides(text: &str) -> Option<Vec<(Vec<u16>, Vec<u16>)>> {
+    let mut res = vec![];
+    let mut rest = text;
+    while let Some(i) = rest.find("(defoverrides") {
+        let body = &rest[i + "(defoverrides".len()..];
+        // the item ends at its matching parenthesis
+        let mut depth = 1i32;
+        let mut end = 0;
+        for (j, ch) in body.char_indices() {
+            match ch {
+                '(' => depth += 1,
+                ')' => {
+                    depth -= 1;
+                    if depth == 0 {
+                        end = j;
+                        break;
+                    }
+                }
+                _ => {}
+            }
+        }
+        let inner = &body[..end];
+        let mut lists: Vec<Vec<u16>> = vec![];
+        let mut cur: Option<Vec<u16>> = None;
+        for tok in inner.replace('(', " ( ").replace(')', " ) ").split_whitespace() {
+            match tok {
+                "(" => {
+                    if cur.is_some() {
+                        return None;
+                    }
+                    cur = Some(vec![]);
+                }
+                ")" => lists.push(cur.take()?),
+                name => cur.as_mut()?.push(u16::from(str_to_oscode(name)?)),
+            }
+        }
+        if lists.len() % 2 != 0 {
+            return None;
+        }
+        for pair in lists.chunks(2) {
+            res.push((pair[0].clone(), pair[1].clone()));
+        }
+        rest = &body[end..];
+    }
+    Some(res)
+}
